@@ -34,8 +34,11 @@ def recheck_stored(props):
         try:
             if sh('git -C /repo apply %s' % patch).returncode:
                 print(os.path.basename(d), 'patch does not apply'); continue
-            for p in props:
-                r = sh('%s/check %s' % (ROOT, p))
+            sh('%s/check --warm dev' % ROOT)       # one extraction, then the 20 checks in parallel
+            from concurrent.futures import ThreadPoolExecutor
+            with ThreadPoolExecutor(10) as ex:
+                results = list(ex.map(lambda p_: (p_, sh('%s/check %s' % (ROOT, p_))), props))
+            for p, r in results:
                 if r.returncode == 1:
                     fired.append(p)
                     details[p] = [l.strip() for l in r.stdout.splitlines() if l.startswith('  instance')][:4]
@@ -91,8 +94,11 @@ def main():
                 if a2.returncode:
                     print('  patch does not apply to /repo'); continue
                 details = {}
-                for p in props:
-                    r = sh('%s/check %s' % (ROOT, p))
+                sh('%s/check --warm dev' % ROOT)       # one extraction, then the 20 checks in parallel
+                from concurrent.futures import ThreadPoolExecutor
+                with ThreadPoolExecutor(10) as ex:
+                    results = list(ex.map(lambda p_: (p_, sh('%s/check %s' % (ROOT, p_))), props))
+                for p, r in results:
                     if r.returncode == 1:
                         fired.append(p)
                         details[p] = [l.strip() for l in r.stdout.splitlines() if l.startswith('  instance')][:4]
